@@ -151,8 +151,11 @@ Definition decode_tags (fname tag : str) : option tags :=
 
 (* [exported] is the result of common.IsFieldExported (first rune upper case);
    for compiled Go types it coincides with reflect's IsExported used by the
-   builder.  An embedded field of a non-struct type (pointer to struct, named
-   scalar) is [FEmbOther]: reflect's NumField panics on it. *)
+   builder.  An embedded field is flattened only when its type's Kind is
+   Struct ([FEmbStruct]).  An embedded field of any other type (pointer to
+   struct, named scalar/slice/map) is [FEmbOther]: an ordinary field whose Go
+   name is the name of its type (reflect's StructField.Name), with its tags
+   applied as for any field. *)
 Inductive fdecl :=
 | FLeaf (name : str) (exported : bool) (tag : str)
 | FEmbStruct (name : str) (exported : bool) (tag : str) (fs : list fdecl)
@@ -274,7 +277,7 @@ Section Lower.
 
   (* extractFields.  [p] is the field's own index path (localPath).  The list
      accumulated so far is re-sorted at the end of every (nested) call, as in
-     the code.  None = panic (tag error, NumField of a non-struct type). *)
+     the code.  None = panic (tag error). *)
   Fixpoint extract_decl (snake : bool) (d : fdecl) (p : path) (acc : list sfield)
     : option (list sfield) :=
     match d with
@@ -290,7 +293,8 @@ Section Lower.
       if exp then
         match decode_tags name tag with
         | None => None
-        | Some t => if omit_eqb (t_omit t) OAlways then Some acc else None
+        | Some t => if omit_eqb (t_omit t) OAlways then Some acc
+                    else Some (acc ++ [new_struct_field snake t p])
         end
       else Some acc
     | FEmbStruct name exp tag fs =>
@@ -341,7 +345,7 @@ Section Lower.
       if exp then
         match decode_tags name tag with
         | None => None
-        | Some t => if omit_eqb (t_omit t) OAlways then Some [] else None
+        | Some t => if omit_eqb (t_omit t) OAlways then Some [] else Some [new_struct_field snake t p]
         end
       else Some []
     | FEmbStruct name exp tag fs =>
@@ -396,12 +400,22 @@ Section Lower.
     | Some l => Some (map (fun f => (sf_name f, sf_path f)) (filter (kept default_omit val) l))
     end.
 
+  (* newRecordIterators: the record type lists the keys of the extracted
+     fields that shouldIncludeField keeps for the dummy value reflect.ValueOf(1)
+     (never empty, never zero: only the omit flag and the default matter); every
+     record lists the values of exactly those fields, whatever they hold. *)
+  Definition dummy_valuation : valuation := fun _ => mkV KOther false false false.
+  Definition record_fields (snake : bool) (default_omit : omit) (fs : list fdecl)
+    : option (list (str * path)) :=
+    iterate_struct snake default_omit fs dummy_valuation.
+
   (* ----------------------------------------------------------------------- *)
   (* Builder: makeGeneratorDescs and the alias table                         *)
 
   (* Every exported field is entered under its tag name (whatever its omit
      flag); embedded structs are flattened whatever their tags (their tags are
-     not even parsed); later entries with the same name replace earlier ones. *)
+     not even parsed); an embedded field of a non-struct type is an ordinary
+     entry; later entries with the same name replace earlier ones. *)
   Fixpoint btable_decl (d : fdecl) (p : path) : option (list (str * path)) :=
     match d with
     | FLeaf name exp tag =>
@@ -411,7 +425,13 @@ Section Lower.
         | Some t => Some [(t_name t, p)]
         end
       else Some []
-    | FEmbOther name exp tag => if exp then None else Some []
+    | FEmbOther name exp tag =>
+      if exp then
+        match decode_tags name tag with
+        | None => None
+        | Some t => Some [(t_name t, p)]
+        end
+      else Some []
     | FEmbStruct name exp tag fs =>
       if exp then
         (fix go (fs : list fdecl) (i : N) : option (list (str * path)) :=
@@ -684,6 +704,11 @@ Inductive fields_case :=
    keys in order, each with the index paths of the fields whose value it could be *)
 | IterCase (utab : list (N * N)) (snake : bool) (default_omit : omit) (fs : list fdecl)
            (vals : list (path * vinfo)) (impl : option (list (str * list path)))
+(* the same struct type registered as a record type: impl = None when Iterate
+   failed, else the keys of the record type and, per value of the record, the
+   index paths of the fields whose value it could be *)
+| RecordCase (utab : list (N * N)) (snake : bool) (default_omit : omit) (fs : list fdecl)
+             (impl : option (list str * list (list path)))
 (* a one-entry document {key = v} built into the struct type *)
 | LookupCase (utab : list (N * N)) (fs : list fdecl) (ci : bool) (key : str) (impl : lookup_obs)
 (* a whole document; impl_ok = no error; impl_fields = final value of every set field *)
@@ -707,6 +732,15 @@ Definition fields_case_ok (c : fields_case) : bool :=
     match iterate_struct (tab_lower utab) snake dflt fs (val_of vals), impl with
     | None, None => true
     | Some m, Some i => emitted_match m i
+    | _, _ => false
+    end
+  | RecordCase utab snake dflt fs impl =>
+    match record_fields (tab_lower utab) snake dflt fs, impl with
+    | None, None => true
+    | Some m, Some (keys, vals) =>
+      list_eqb str_eqb (map fst m) keys
+      && (length vals =? length m)%nat
+      && forallb (fun pv => mem_path (fst pv) (snd pv)) (combine (map snd m) vals)
     | _, _ => false
     end
   | LookupCase utab fs ci key impl =>
